@@ -39,7 +39,7 @@ ASSUMPTIONS = [
 ]
 BUDGET = {"quick": 40, "thorough": 400}
 NCASES = {"quick": 3000, "thorough": 60000}
-FLOORS = {"quick": {"case_held": 1200}, "thorough": {"case_held": 10000}}
+FLOORS = {'quick': {'case_held': 1200}, 'thorough': {'case_held': 10000, 'suite:apply_function_pullbacks:held': 2}}
 COVER_FLOORS = {
     "quick": {"pullback_kinds": ["identity", "contravariant", "covariant", "l2", "dcontra", "dcov", "covcontra", "mixed", "symmetric"]},
     "thorough": {"pullback_kinds": ["identity", "contravariant", "covariant", "l2", "dcontra", "dcov", "covcontra", "mixed", "symmetric"]},
@@ -166,3 +166,15 @@ def _all_wrapped(e, under=False):
     if n in ("Coefficient", "Argument"):
         return under
     return all(_all_wrapped(c, n == "ReferenceValue") for c in e.ufl_operands)
+
+
+# ---- additional workload (thorough tier): the repository's own test-suite with this property's passes monitored
+EXTRA_JOBS = {"thorough": ["suite"]}
+SUITE_TARGETS = ['apply_function_pullbacks']
+
+
+def extra_suite(ctx):
+    """Every call the repository's tests make to the monitored passes is judged by the same value oracle (vf/suitemon.py)."""
+    from ..suite_driver import run_suite
+
+    run_suite(ctx, SUITE_TARGETS, "C08")
